@@ -1,5 +1,422 @@
-//! C20 (placeholder until the boundary scenarios are written).
-pub fn check(_tier: &str, _seed: u64) -> i32 {
-    eprintln!("C20 not implemented yet");
-    2
+//! C20: boundary scenarios.  For each capacity limit L, histories that bring
+//! the quantity to L-1, L and L+1 -- in one batch, incrementally across
+//! calls and restarts, and after deletions have freed capacity again.  The
+//! expensive states are fast-forwarded with a foreign-encoded image.
+
+use crate::disk::DiskCfg;
+use crate::foreign::*;
+use crate::gen;
+use crate::model::*;
+use crate::ops::*;
+use crate::prng::{mix, Prng};
+use crate::runner::*;
+use std::collections::BTreeMap;
+use std::sync::atomic::{AtomicU64, Ordering};
+use std::sync::Mutex;
+use std::time::Instant;
+
+pub const POOL_LIMIT: usize = 65535;
+
+struct B {
+    ops: Vec<OpRec>,
+    id: u32,
+}
+
+impl B {
+    fn new() -> B {
+        B { ops: Vec::new(), id: 1 }
+    }
+    fn push(&mut self, op: Op) {
+        self.ops.push(OpRec { id: self.id, op });
+        self.id += 1;
+    }
+    fn restart(&mut self, rng: &mut Prng) {
+        let mode = *rng.pick(&[CloseMode::IntoInner, CloseMode::Drop, CloseMode::FlushDrop, CloseMode::FlushCrash]);
+        self.push(Op::Restart { mode, edits: Vec::new() });
+    }
+}
+
+fn knobs(rng: &mut Prng) -> Knobs {
+    Knobs {
+        disk: DiskCfg { write_back: rng.chance(400), disk_seed: rng.next_u64(), ..Default::default() },
+        hash_seed: rng.next_u64(),
+        observe_pct: 0,
+        aux_seed: rng.next_u64(),
+    }
+}
+
+fn trace(seed: u64, idx: u64, init: Init, ops: Vec<OpRec>, rng: &mut Prng) -> Trace {
+    Trace {
+        property: "C20".into(),
+        profile: "limits".into(),
+        seed,
+        run: idx,
+        check: None,
+        site: None,
+        message: None,
+        knobs: knobs(rng),
+        init,
+        faults: Vec::new(),
+        ops,
+    }
+}
+
+fn int_rows(from: i32, n: usize) -> Vec<Vec<Val>> {
+    (0..n as i32).map(|i| vec![Val::Int(from + i), if i % 7 == 0 { Val::Null } else { Val::Int(i % 100) }]).collect()
+}
+
+fn rows_table() -> Op {
+    Op::CreateTable {
+        name: "R".into(),
+        cols: vec![ColSpec::new("K", CType::I32).key(), ColSpec::new("V", CType::I16).nullable()],
+    }
+}
+
+/// A foreign image whose pool holds exactly `total` distinct live strings.
+fn pool_image(total: usize, long_refs: bool, rng: &mut Prng) -> ForeignSpec {
+    let mk = |n: usize| -> ForeignSpec {
+        let rows: Vec<Vec<Val>> =
+            (0..n).map(|i| vec![Val::Int(i as i32 + 1), Val::Str(format!("Q{}Q", 700_000 + i))]).collect();
+        ForeignSpec {
+            ptype: PType::Installer,
+            codepage: 65001,
+            long_refs,
+            tables: vec![FTable {
+                name: "P".into(),
+                cols: vec![ColSpec::new("K", CType::I32).key(), ColSpec::new("S", CType::Str(0)).nullable()],
+                rows,
+                sorted: true,
+                width1: false,
+            }],
+            validation: true,
+            pool_holes: 0,
+            pool_dups: false,
+            overcount: 0,
+            pool_pad: 0,
+            pool_seed: 1,
+            summary: FSummary { codepage: Some(65001), props: vec![(2, FProp::Str("t".into()))], layout_seed: 1, section_offset: 48, gaps: false, os: 2, version: 0 },
+            streams: Vec::new(),
+            signature: false,
+            docsummary: false,
+            shuffle_catalog: false,
+            catalog_first: false,
+        }
+    };
+    // the catalog contributes its own strings: measure, then size the table
+    let base = mk(0).model().live_strings().len();
+    let mut spec = mk(total - base);
+    spec.pool_seed = rng.next_u64();
+    debug_assert_eq!(spec.model().live_strings().len(), total);
+    spec
+}
+
+fn new_str(i: u32) -> Val {
+    Val::Str(format!("Q{}Q", 900_000 + i))
+}
+
+pub fn scenario(seed: u64, idx: u64) -> Trace {
+    let mut rng = Prng::new(mix(&[seed, idx, 0x20]));
+    let mut b = B::new();
+    let kind = idx % 24;
+    let created = Init::Create(*rng.pick(&[PType::Installer, PType::Patch]));
+    match kind {
+        // ---- 32 columns
+        0..=2 => {
+            let n = [31usize, 32, 33][kind as usize];
+            let cols: Vec<ColSpec> = (0..n)
+                .map(|i| {
+                    let mut c = ColSpec::new(&format!("C{}", i + 1), if i % 3 == 0 { CType::I32 } else { CType::Str(20) });
+                    c.key = i == 0;
+                    c.nullable = i != 0;
+                    c
+                })
+                .collect();
+            b.push(Op::CreateTable { name: "Wide".into(), cols: cols.clone() });
+            b.push(Op::Observe);
+            if n <= 32 {
+                let row: Vec<Val> =
+                    cols.iter().enumerate().map(|(i, c)| if c.is_str() { new_str(i as u32) } else { Val::Int(i as i32) }).collect();
+                b.push(Op::Insert { table: "Wide".into(), rows: vec![row] });
+            }
+            b.restart(&mut rng);
+            trace(seed, idx, created, b.ops, &mut rng)
+        }
+        // ---- 65,536 rows, one batch
+        3..=5 => {
+            let n = [65535usize, 65536, 65537][kind as usize - 3];
+            b.push(rows_table());
+            b.push(Op::Insert { table: "R".into(), rows: int_rows(1, n) });
+            b.push(Op::Observe);
+            b.restart(&mut rng);
+            b.push(Op::Select { table: "R".into(), cols: vec!["K".into()], cond: Some(Cond::Cmp("K".into(), CmpOp::Ge, Val::Int(65530))) });
+            trace(seed, idx, created, b.ops, &mut rng)
+        }
+        // ---- rows, incrementally, with restarts in between
+        6 | 7 => {
+            b.push(rows_table());
+            b.push(Op::Insert { table: "R".into(), rows: int_rows(1, 65534) });
+            if kind == 7 {
+                b.restart(&mut rng);
+            }
+            b.push(Op::Insert { table: "R".into(), rows: int_rows(100_000, 1) });
+            b.push(Op::Insert { table: "R".into(), rows: int_rows(100_001, 1) });
+            if kind == 7 {
+                b.restart(&mut rng);
+            }
+            b.push(Op::Insert { table: "R".into(), rows: int_rows(100_002, 1) });
+            b.push(Op::Observe);
+            b.push(Op::Insert { table: "R".into(), rows: int_rows(100_003, 2) });
+            b.restart(&mut rng);
+            trace(seed, idx, created, b.ops, &mut rng)
+        }
+        // ---- rows, after deletions have freed capacity
+        8 => {
+            b.push(rows_table());
+            b.push(Op::Insert { table: "R".into(), rows: int_rows(1, 65536) });
+            b.push(Op::Insert { table: "R".into(), rows: int_rows(200_000, 1) });
+            b.push(Op::Delete { table: "R".into(), cond: Some(Cond::Cmp("K".into(), CmpOp::Le, Val::Int(10))) });
+            b.push(Op::Insert { table: "R".into(), rows: int_rows(200_000, 10) });
+            b.push(Op::Insert { table: "R".into(), rows: int_rows(300_000, 1) });
+            b.push(Op::Update { table: "R".into(), sets: vec![("V".into(), Val::Int(5))], cond: Some(Cond::Cmp("K".into(), CmpOp::Gt, Val::Int(65000))) });
+            b.push(Op::Observe);
+            b.restart(&mut rng);
+            trace(seed, idx, created, b.ops, &mut rng)
+        }
+        // ---- 65,535 distinct strings with two-byte references
+        9..=16 => {
+            let start = match kind {
+                9 | 12 | 13 => POOL_LIMIT - 1,
+                10 | 11 | 14 | 15 | 16 => POOL_LIMIT,
+                _ => POOL_LIMIT,
+            };
+            let spec = pool_image(start, false, &mut rng);
+            match kind {
+                9 => {
+                    // L-1 -> L accepted, L+1 refused
+                    b.push(Op::Insert { table: "P".into(), rows: vec![vec![Val::Int(1_000_001), new_str(1)]] });
+                    b.push(Op::Insert { table: "P".into(), rows: vec![vec![Val::Int(1_000_002), new_str(2)]] });
+                    b.push(Op::Observe);
+                }
+                10 => {
+                    // at L: a new string is refused, an existing one is fine
+                    b.push(Op::Insert { table: "P".into(), rows: vec![vec![Val::Int(1_000_001), new_str(1)]] });
+                    b.push(Op::Insert { table: "P".into(), rows: vec![vec![Val::Int(1_000_002), Val::Str(format!("Q{}Q", 700_003))]] });
+                    b.push(Op::Insert { table: "P".into(), rows: vec![vec![Val::Int(1_000_003), Val::Null]] });
+                }
+                11 => {
+                    // at L: deleting frees a slot
+                    b.push(Op::Delete { table: "P".into(), cond: Some(Cond::Cmp("K".into(), CmpOp::Le, Val::Int(2))) });
+                    b.push(Op::Insert { table: "P".into(), rows: vec![vec![Val::Int(1_000_001), new_str(1)], vec![Val::Int(1_000_002), new_str(2)]] });
+                    b.push(Op::Insert { table: "P".into(), rows: vec![vec![Val::Int(1_000_003), new_str(3)]] });
+                }
+                12 => {
+                    // L-1: a batch needing two slots is refused as a whole
+                    b.push(Op::Insert { table: "P".into(), rows: vec![vec![Val::Int(1_000_001), new_str(1)], vec![Val::Int(1_000_002), new_str(2)]] });
+                    b.push(Op::Observe);
+                    b.push(Op::Insert { table: "P".into(), rows: vec![vec![Val::Int(1_000_003), new_str(3)]] });
+                }
+                13 => {
+                    // L-1 with a restart between the steps
+                    b.push(Op::Insert { table: "P".into(), rows: vec![vec![Val::Int(1_000_001), new_str(1)]] });
+                    b.restart(&mut rng);
+                    b.push(Op::Insert { table: "P".into(), rows: vec![vec![Val::Int(1_000_002), new_str(2)]] });
+                }
+                14 => {
+                    // at L: update to a new string replaces one (fits); to two rows needs none extra either
+                    b.push(Op::Update { table: "P".into(), sets: vec![("S".into(), new_str(1))], cond: Some(Cond::Cmp("K".into(), CmpOp::Eq, Val::Int(5))) });
+                    b.push(Op::Update { table: "P".into(), sets: vec![("S".into(), Val::Str(format!("Q{}Q", 700_010)))], cond: Some(Cond::Cmp("K".into(), CmpOp::Le, Val::Int(3))) });
+                    b.push(Op::Observe);
+                }
+                15 => {
+                    // at L: creating a table needs new catalog strings
+                    b.push(Op::CreateTable { name: "Fresh".into(), cols: vec![ColSpec::new("NewCol", CType::I16).key()] });
+                    b.push(Op::Observe);
+                }
+                _ => {
+                    // at L: summary and streams are not limited by the pool
+                    b.push(Op::Summary(SumOp::SetStr(SumField::Author, "someone".into())));
+                    b.push(Op::WriteStream { name: "Extra".into(), dseed: 5, steps: vec![WStep::Write(100), WStep::Flush] });
+                    b.push(Op::Insert { table: "P".into(), rows: vec![vec![Val::Int(1_000_001), new_str(1)]] });
+                }
+            }
+            b.restart(&mut rng);
+            trace(seed, idx, Init::Foreign(Box::new(spec)), b.ops, &mut rng)
+        }
+        // ---- three-byte references: no such limit
+        17 => {
+            let spec = pool_image(POOL_LIMIT, true, &mut rng);
+            b.push(Op::Insert { table: "P".into(), rows: vec![vec![Val::Int(1_000_001), new_str(1)], vec![Val::Int(1_000_002), new_str(2)]] });
+            b.push(Op::Observe);
+            b.restart(&mut rng);
+            trace(seed, idx, Init::Foreign(Box::new(spec)), b.ops, &mut rng)
+        }
+        // ---- names
+        18 | 19 => {
+            let lens: &[usize] = if kind == 18 { &[31, 32, 33] } else { &[59, 60, 61] };
+            for (i, l) in lens.iter().enumerate() {
+                let mut n = "N".repeat(*l);
+                n.replace_range(0..1, &format!("{}", ["A", "B", "C"][i]));
+                b.push(Op::CreateTable { name: n, cols: vec![ColSpec::new("K", CType::I16).key()] });
+            }
+            for l in [31usize, 32, 33, 64, 65] {
+                let cn = format!("c{}", "x".repeat(l - 1));
+                b.push(Op::CreateTable { name: format!("L{}", l), cols: vec![ColSpec::new("K", CType::I16).key(), ColSpec::new(&cn, CType::I16).nullable()] });
+            }
+            b.push(Op::Observe);
+            b.restart(&mut rng);
+            trace(seed, idx, created, b.ops, &mut rng)
+        }
+        20 => {
+            for l in [61usize, 62, 63] {
+                b.push(Op::WriteStream { name: "s".repeat(l), dseed: l as u32, steps: vec![WStep::Write(10)] });
+            }
+            for l in [30usize, 31, 32] {
+                b.push(Op::WriteStream { name: "é".repeat(l), dseed: l as u32, steps: vec![WStep::Write(10)] });
+            }
+            b.push(Op::Observe);
+            b.restart(&mut rng);
+            trace(seed, idx, created, b.ops, &mut rng)
+        }
+        // ---- widths
+        21 => {
+            for w in [254u32, 255, 256] {
+                b.push(Op::CreateTable { name: format!("W{}", w), cols: vec![ColSpec::new("K", CType::Str(w)).key()] });
+            }
+            b.push(Op::Insert { table: "W255".into(), rows: vec![vec![Val::Str(format!("Q1Q{}", "z".repeat(252)))]] });
+            b.push(Op::Insert { table: "W255".into(), rows: vec![vec![Val::Str(format!("Q2Q{}", "z".repeat(253)))]] });
+            b.push(Op::Observe);
+            b.restart(&mut rng);
+            trace(seed, idx, created, b.ops, &mut rng)
+        }
+        // ---- 16-bit reference counts
+        22 => {
+            b.push(Op::CreateTable {
+                name: "Same".into(),
+                cols: vec![ColSpec::new("K", CType::I32).key(), ColSpec::new("A", CType::Str(0)), ColSpec::new("B", CType::Str(0)).nullable()],
+            });
+            let s = Val::Str("Q77Qshared".into());
+            let rows: Vec<Vec<Val>> = (0..32768 + rng.below(3) as i32).map(|i| vec![Val::Int(i), s.clone(), s.clone()]).collect();
+            b.push(Op::Insert { table: "Same".into(), rows });
+            b.restart(&mut rng);
+            b.push(Op::Delete { table: "Same".into(), cond: Some(Cond::Cmp("K".into(), CmpOp::Lt, Val::Int(10))) });
+            b.push(Op::Update { table: "Same".into(), sets: vec![("B".into(), Val::Null)], cond: Some(Cond::Cmp("K".into(), CmpOp::Lt, Val::Int(100))) });
+            b.push(Op::Observe);
+            b.restart(&mut rng);
+            trace(seed, idx, created, b.ops, &mut rng)
+        }
+        // ---- a seeded ordinary history on top of a near-full pool
+        _ => {
+            let spec = pool_image(POOL_LIMIT - 1 - rng.usize_below(3), false, &mut rng);
+            let mut t = gen::generate("C20", gen::Profile::Limits, seed, idx);
+            t.profile = "limits".into();
+            t.init = Init::Foreign(Box::new(spec));
+            t.knobs.observe_pct = 0;
+            t
+        }
+    }
+}
+
+pub fn check(tier: &str, seed: u64) -> i32 {
+    let thorough = tier == "thorough";
+    let scale: f64 = std::env::var("VERIF_SCALE").ok().and_then(|s| s.parse().ok()).unwrap_or(1.0);
+    let n = (((if thorough { 24 * 40 } else { 24 * 3 }) as f64) * scale).max(1.0) as u64;
+    let t0 = Instant::now();
+    let known = load_known();
+    let next = AtomicU64::new(0);
+    let agg = Mutex::new(Agg::default());
+    let found: Mutex<Vec<Found>> = Mutex::new(Vec::new());
+    let kinds: Mutex<BTreeMap<u64, u64>> = Mutex::new(BTreeMap::new());
+    std::thread::scope(|s| {
+        for _ in 0..threads().min(8) {
+            s.spawn(|| loop {
+                let idx = next.fetch_add(1, Ordering::Relaxed);
+                if idx >= n {
+                    break;
+                }
+                let attempt = std::panic::catch_unwind(std::panic::AssertUnwindSafe(|| {
+                    let t = scenario(seed, idx);
+                    let r = run_one(&t);
+                    (t, r)
+                }));
+                match attempt {
+                    Ok((t, r)) => {
+                        let mut a = agg.lock().unwrap();
+                        local_absorb(&mut a, &t, &r.stats, idx);
+                        *kinds.lock().unwrap().entry(idx % 24).or_insert(0) += 1;
+                        if let Some(v) = r.violations.iter().find(|v| v.property() == "C20") {
+                            found.lock().unwrap().push(Found { trace: t, violation: v.clone() });
+                        } else if let Some(v) = r.violations.first() {
+                            *a.other_property.entry(v.check.clone()).or_insert(0) += 1;
+                        }
+                    }
+                    Err(_) => {
+                        eprintln!("harness error: simulator panicked in limits scenario {} (seed {})", idx, seed);
+                        HARNESS_ERRORS.fetch_add(1, Ordering::Relaxed);
+                    }
+                }
+            });
+        }
+    });
+    let mut found = found.into_inner().unwrap();
+    found.sort_by_key(|f| f.trace.run);
+    let mut violations = 0;
+    let mut reported: Vec<String> = Vec::new();
+    let mut known_hits = Vec::new();
+    for f in found.iter() {
+        let sig = f.violation.signature();
+        if reported.contains(&sig) {
+            continue;
+        }
+        if let Some(k) = known.matches(&f.violation) {
+            let line = format!("KNOWN-FINDING: property=C20 {} [{}]", k.2, k.1);
+            if !known_hits.contains(&line) {
+                println!("{}", line);
+                known_hits.push(line);
+            }
+            continue;
+        }
+        reported.push(sig);
+        // boundary scenarios are short by construction; only drop trailing ops
+        let (mt, mv, _) = minimise(f, 12);
+        let path = write_replay("C20", &mt, &mv);
+        violations += 1;
+        println!("violation: check={} site={} scenario={} message={}", mv.check, mv.site, f.trace.run % 24, mv.message);
+        println!("VIOLATION property=C20 replay={}", path.display());
+    }
+    report_known(&known, "C20", &mut known_hits);
+    let wall = t0.elapsed().as_secs_f64();
+    let agg = agg.into_inner().unwrap();
+    let mut extra = BTreeMap::new();
+    extra.insert(
+        "scenario_kinds".to_string(),
+        serde_json::json!("0-2 columns 31/32/33; 3-5 rows 65535/65536/65537 in one batch; 6-7 rows incrementally (with restarts); 8 rows after deletions; 9-16 string pool at L-1/L with two-byte references (insert, batch, delete-then-insert, update, create_table, restart in between); 17 three-byte references; 18-19 table/column name lengths; 20 stream name lengths; 21 string widths 254/255/256; 22 16-bit refcount saturation; 23 seeded history on a near-full pool"),
+    );
+    extra.insert("scenarios_per_kind".to_string(), serde_json::json!(kinds.into_inner().unwrap().into_iter().map(|(k, v)| (k.to_string(), v)).collect::<BTreeMap<_, _>>()));
+    let rep = CheckReport {
+        property: "C20".into(),
+        tier: tier.into(),
+        seed,
+        level: "exploration".into(),
+        agg,
+        wall_s: wall,
+        violations,
+        known_hits,
+        rule: "one case = one boundary scenario (limit x approach x seeded close modes / disk mode); non-trivial = at least one successful mutation and one oracle evaluation; distinct = different (operation-kind sequence, final model state) fingerprint".into(),
+        assumptions: vec![
+            "the 65,535-string states are fast-forwarded by a foreign-encoded image (reaching them through the API costs O(n^2))".into(),
+            "pool capacity is predicted from the number of distinct live strings; scenarios start from pools without holes or duplicates so that slots = distinct strings".into(),
+        ],
+        per_profile: vec![("limits".into(), n)],
+        extra,
+    };
+    write_evidence(&rep);
+    println!("scenarios={} wall={:.1}s violations={}", n, wall, violations);
+    if HARNESS_ERRORS.load(Ordering::Relaxed) > 0 {
+        return 2;
+    }
+    if violations > 0 {
+        1
+    } else {
+        0
+    }
 }
